@@ -11,6 +11,22 @@ use crate::overlap::{is_contiguous, may_have_internal_overlap};
 use crate::slice_range::{IntoSliceItems, SliceItem};
 use crate::type_num::{OptionalUInt, U0, U1, U2, U3, U4, U5, Unknown};
 
+/// Return the minimum storage length required by a layout with the given
+/// shape and strides, or `None` if it cannot be represented as a `usize`.
+///
+/// A layout whose largest element offset overflows cannot be backed by any
+/// storage, and the unchecked arithmetic used elsewhere would wrap around.
+fn checked_min_data_len(shape: &[usize], strides: &[usize]) -> Option<usize> {
+    if shape.contains(&0) {
+        return Some(0);
+    }
+    let mut max_offset: usize = 0;
+    for (&size, &stride) in shape.iter().zip(strides) {
+        max_offset = max_offset.checked_add((size - 1).checked_mul(stride)?)?;
+    }
+    max_offset.checked_add(1)
+}
+
 /// Return true if `permutation` is a valid permutation of dimensions for
 /// a tensor of rank `ndim`.
 pub fn is_valid_permutation(ndim: usize, permutation: &[usize]) -> bool {
@@ -945,6 +961,9 @@ impl<const N: usize> MutLayout for NdLayout<N> {
         strides: Self::Strides<'_>,
         overlap: OverlapPolicy,
     ) -> Result<Self, FromDataError> {
+        if checked_min_data_len(&shape, &strides).is_none() {
+            return Err(FromDataError::StorageTooShort);
+        }
         let layout = NdLayout { shape, strides };
 
         match overlap {
@@ -1072,6 +1091,9 @@ impl MutLayout for DynLayout {
         strides: &[usize],
         overlap: OverlapPolicy,
     ) -> Result<Self, FromDataError> {
+        if checked_min_data_len(shape, strides).is_none() {
+            return Err(FromDataError::StorageTooShort);
+        }
         let mut shape_and_strides = SmallVec::with_capacity(shape.len() + strides.len());
         shape_and_strides.extend_from_slice(shape);
         shape_and_strides.extend_from_slice(strides);
